@@ -200,17 +200,33 @@ N = {"quick": 400, "thorough": 6000}
 
 
 def shard_plan(tier):
-    return [f"s{i}" for i in range(16)]
+    return [f"s{i}" for i in range(13)] + [f"layers{i}" for i in range(3)]
+
+
+def layer_meta_case(case, rec):
+    """nnet-layer outputs as terminals (arbitrary g): the stored gradients' type/shape/dtype (and values, via C02's
+    oracle) - 'including ... outputs of the nnet layers'."""
+    from vf.checks import c02
+
+    return c02.check_case(case, rec)
 
 
 def run_shard(shard, seed, tier):
     rec = Recorder()
-    viol = drive(prop=PROPERTY, name="seeding", strategy=cases(), check_case=lambda c: check_case(c, rec), rec=rec,
-                 seed=seed, max_examples=N[tier])
+    if shard.startswith("layers"):
+        from vf.checks import c02_layers
+
+        viol = drive(prop=PROPERTY, name="layer_vjp", strategy=c02_layers.layer_cases(),
+                     check_case=lambda c: layer_meta_case(c, rec), rec=rec, seed=seed, max_examples=c02_layers.N[tier])
+    else:
+        viol = drive(prop=PROPERTY, name="seeding", strategy=cases(), check_case=lambda c: check_case(c, rec), rec=rec,
+                     seed=seed, max_examples=N[tier])
     out = rec.result()
     out["violations"] = viol
     return out
 
 
 def replay(check, case):
+    if check == "layer_vjp":
+        return layer_meta_case(case, None)
     return check_case(case)
